@@ -216,6 +216,7 @@ func (g *Gen) contractEnv(con *Contract, args []Val, heap, old *Heap) *Env {
 }
 
 type modLoc struct {
+	cond      string // "" = unconditional; otherwise the location changes only if cond holds
 	arr, sort string
 	idx       string // "" = whole array
 	all       bool   // slice contents / map contents
@@ -229,6 +230,12 @@ func (g *Gen) resolveMods(con *Contract, env *Env) []modLoc {
 	var out []modLoc
 	for _, m := range con.Modifies {
 		src := m
+		condSrc := ""
+		if i := strings.Index(m, " if "); i >= 0 {
+			condSrc = m[i+4:]
+			m = strings.TrimSpace(m[:i])
+		}
+		before := len(out)
 		func() {
 			defer func() {
 				if r := recover(); r != nil {
@@ -239,6 +246,42 @@ func (g *Gen) resolveMods(con *Contract, env *Env) []modLoc {
 					panic(r)
 				}
 			}()
+			if strings.HasPrefix(m, "*.") {
+				// every object's field: *.Type.field (whole heap array)
+				rest := m[2:]
+				i := strings.LastIndex(rest, ".")
+				if i < 0 {
+					trFail("expected *.Type.field")
+				}
+				tn, fn := rest[:i], rest[i+1:]
+				if gf, ok := g.W.ghost[tn][fn]; ok {
+					out = append(out, modLoc{arr: "G!" + tn + "!" + fn, sort: sortOf(g.W.mustType(gf.Type)), src: src})
+					return
+				}
+				t, err := g.W.parseType(tn)
+				if err != nil {
+					trFail("%v", err)
+				}
+				arr, fty, ok := g.fieldArr(t, fn)
+				if !ok {
+					trFail("no field %s on %s", fn, tn)
+				}
+				out = append(out, modLoc{arr: arr, sort: sortOf(fty), src: src})
+				return
+			}
+			if strings.HasPrefix(m, "*chan") {
+				out = append(out, modLoc{arr: "G!chan!len", sort: "Int", src: src}, modLoc{arr: "G!chan!closed", sort: "Bool", src: src}, modLoc{arr: "G!chan!cap", sort: "Int", src: src})
+				return
+			}
+			if strings.HasPrefix(m, "*elems ") {
+				t, err := g.W.parseType(strings.TrimSpace(m[7:]))
+				if err != nil {
+					trFail("%v", err)
+				}
+				s := sortOf(t)
+				out = append(out, modLoc{arr: elemArrName(s), sort: "(Array Int " + s + ")", src: src})
+				return
+			}
 			if strings.HasSuffix(m, "[**]") {
 				// the whole backing array of a slice (append may write into spare capacity)
 				e, err := parseExpr(strings.TrimSuffix(m, "[**]"))
@@ -319,6 +362,21 @@ func (g *Gen) resolveMods(con *Contract, env *Env) []modLoc {
 			}
 			out = append(out, modLoc{arr: v.Loc.Arr, sort: v.Loc.Sort, idx: v.Loc.Idx, src: src})
 		}()
+		if condSrc != "" {
+			ce, err := parseExpr(condSrc)
+			if err != nil {
+				g.errorf("contract %s: modifies %s: %v", con.Name, src, err)
+				continue
+			}
+			ct, err := g.trBool(stripParens(ce), env)
+			if err != nil {
+				g.errorf("contract %s: modifies %s: %v", con.Name, src, err)
+				continue
+			}
+			for i := before; i < len(out); i++ {
+				out[i].cond = ct
+			}
+		}
 	}
 	return out
 }
@@ -341,7 +399,9 @@ func (f *frame) applyContract(con *Contract, key string, args []Val, rt *types.T
 	if ci != nil {
 		for i, fv := range ci.fn.FreeVars {
 			if i < len(ci.bindings) {
-				env.vars[fv.Name()] = ci.bindings[i]
+				v := ci.bindings[i]
+				v.Cell = isCellType(fv.Type())
+				env.vars[fv.Name()] = v
 			}
 		}
 	}
@@ -389,7 +449,11 @@ func (f *frame) applyContract(con *Contract, key string, args []Val, rt *types.T
 			a := g.arr(st.heap, m.arr, m.sort)
 			hv := g.fresh("mod")
 			g.declare(hv, m.sort)
-			g.assignArr(st.heap, m.arr, m.sort, fmt.Sprintf("(store %s %s %s)", a, m.idx, hv))
+			if m.cond != "" {
+				g.assignArr(st.heap, m.arr, m.sort, fmt.Sprintf("(store %s %s (ite %s %s (select %s %s)))", a, m.idx, m.cond, hv, a, m.idx))
+			} else {
+				g.assignArr(st.heap, m.arr, m.sort, fmt.Sprintf("(store %s %s %s)", a, m.idx, hv))
+			}
 		}
 	}
 	// results
@@ -407,7 +471,9 @@ func (f *frame) applyContract(con *Contract, key string, args []Val, rt *types.T
 	if ci != nil {
 		for i, fv := range ci.fn.FreeVars {
 			if i < len(ci.bindings) {
-				post.vars[fv.Name()] = ci.bindings[i]
+				v := ci.bindings[i]
+				v.Cell = isCellType(fv.Type())
+				post.vars[fv.Name()] = v
 			}
 		}
 	}
@@ -431,7 +497,25 @@ func (f *frame) applyContract(con *Contract, key string, args []Val, rt *types.T
 		}
 		v, ok := post.vars[fr]
 		if !ok {
-			g.errorf("contract %s: fresh %s: no such result", con.Name, fr)
+			// an expression over the results, e.g. fresh r.R
+			fe, err := parseExpr(fr)
+			if err == nil {
+				post.heap = st.heap
+				func() {
+					defer func() {
+						if r := recover(); r != nil {
+							if _, isTr := r.(trError); !isTr {
+								panic(r)
+							}
+						}
+					}()
+					v = g.tr(stripParens(fe), post)
+					ok = true
+				}()
+			}
+		}
+		if !ok {
+			g.errorf("contract %s: fresh %s: cannot be evaluated", con.Name, fr)
 			continue
 		}
 		guard := st.reach
@@ -465,7 +549,11 @@ func (f *frame) applyContract(con *Contract, key string, args []Val, rt *types.T
 		tn := ""
 		if stt, bt := g.structOf(v.Ty); stt != nil {
 			tn = g.W.typeName(bt)
-			for i := 0; i < stt.NumFields(); i++ {
+			nf := stt.NumFields()
+			if nt, ok := bt.(*types.Named); ok && nt.Obj().Pkg() != g.W.tpkg {
+				nf = 0 // internals of library types are never read by the code under contract
+			}
+			for i := 0; i < nf; i++ {
 				fl := stt.Field(i)
 				if _, isStruct := fl.Type().Underlying().(*types.Struct); isStruct {
 					continue
@@ -525,7 +613,9 @@ func (f *frame) doGo(x *ssa.Go, st *State) {
 	if ci != nil {
 		for i, fv := range ci.fn.FreeVars {
 			if i < len(ci.bindings) {
-				env.vars[fv.Name()] = ci.bindings[i]
+				v := ci.bindings[i]
+				v.Cell = isCellType(fv.Type())
+				env.vars[fv.Name()] = v
 			}
 		}
 	}
